@@ -26,28 +26,40 @@ struct Op {
     payload: usize,
 }
 
-const N_PAYLOADS: usize = 3;
+const N_PAYLOADS: usize = 10;
+/// payloads of the exhaustively enumerated base alphabet (the first three)
+const N_BASE_PAYLOADS: usize = 3;
+const N_KEYS: usize = 5;
 
 fn payloads() -> [Payload; N_PAYLOADS] {
     [
         Payload { eval: 150, mv: Some(Move::new(12, 28, Piece::Pawn, MoveType::Quiet)), bounds: Bounds::Exact },
         Payload { eval: -32767, mv: None, bounds: Bounds::Upper },
         Payload { eval: 77, mv: Some(Move::new(6, 21, Piece::Knight, MoveType::Quiet)), bounds: Bounds::Lower },
+        // the wide alphabet: scores at and beyond the search window, mate scores, the i32 range
+        Payload { eval: i32::MAX - 1000, mv: Some(Move::new(3, 59, Piece::Queen, MoveType::Capture)), bounds: Bounds::Exact },
+        Payload { eval: -(i32::MAX - 1000) + 2, mv: None, bounds: Bounds::Lower },
+        Payload { eval: 32767, mv: Some(Move::new(52, 60, Piece::Pawn, MoveType::Promotion)), bounds: Bounds::Upper },
+        Payload { eval: -32768, mv: None, bounds: Bounds::Exact },
+        Payload { eval: i32::MIN, mv: None, bounds: Bounds::Exact },
+        Payload { eval: i32::MAX, mv: Some(Move::new(4, 6, Piece::King, MoveType::Castle)), bounds: Bounds::Lower },
+        Payload { eval: 0, mv: None, bounds: Bounds::Exact },
     ]
 }
 
-fn keys(seed: u64) -> [u64; 4] {
+fn keys(seed: u64) -> [u64; N_KEYS + 1] {
     // equal in their low 40 bits (first two), equal in the low 63 bits (first and third): any
     // index derived by truncating the key makes them collide. The fourth is never stored.
     let k = 0x9E37_79B9_7F4A_7C15u64.wrapping_mul(seed.wrapping_add(1)) | 1;
-    [k, k.wrapping_add(1 << 40), k ^ (1 << 63), k.wrapping_add(1)]
+    // then the two ends of the key range; the last is never stored
+    [k, k.wrapping_add(1 << 40), k ^ (1 << 63), 0, u64::MAX, k.wrapping_add(1)]
 }
 
 fn all_ops() -> Vec<Op> {
     let mut v = Vec::new();
     for key in 0..3 {
         for depth in 0..3u8 {
-            for payload in 0..N_PAYLOADS {
+            for payload in 0..N_BASE_PAYLOADS {
                 v.push(Op { key, depth, payload });
             }
         }
@@ -55,7 +67,7 @@ fn all_ops() -> Vec<Op> {
     v
 }
 
-type Model = [Option<(u8, usize)>; 3];
+type Model = [Option<(u8, usize)>; N_KEYS];
 
 fn model_apply(m: &mut Model, op: Op) {
     match m[op.key] {
@@ -69,17 +81,17 @@ fn op_text(op: Op) -> String {
 }
 
 /// Runs one sequence on a fresh table; after every operation compares every retrieve.
-fn run_sequence(seq: &[Op], ks: &[u64; 4], pl: &[Payload; N_PAYLOADS]) -> Result<(), String> {
+fn run_sequence(seq: &[Op], ks: &[u64; N_KEYS + 1], pl: &[Payload; N_PAYLOADS]) -> Result<(), String> {
     let r = guard(|| {
         let mut tt = TranspositionTable::new();
-        let mut model: Model = [None; 3];
+        let mut model: Model = [None; N_KEYS];
         for (i, op) in seq.iter().enumerate() {
             let p = pl[op.payload];
             tt.store(ks[op.key], p.eval, p.mv, op.depth, p.bounds);
             model_apply(&mut model, *op);
-            for k in 0..4 {
+            for k in 0..=N_KEYS {
                 let got = tt.retrieve(ks[k]).copied();
-                let want = if k < 3 { model[k] } else { None };
+                let want = if k < N_KEYS { model[k] } else { None };
                 let same = match (got, want) {
                     (None, None) => true,
                     (Some(e), Some((d, pi))) => {
@@ -108,7 +120,7 @@ fn run_sequence(seq: &[Op], ks: &[u64; 4], pl: &[Payload; N_PAYLOADS]) -> Result
 }
 
 fn seq_arg(seq: &[Op]) -> String {
-    seq.iter().map(|o| format!("{}{}{}", o.key, o.depth, o.payload)).collect::<Vec<_>>().join(",")
+    seq.iter().map(|o| format!("{}.{}.{}", o.key, o.depth, o.payload)).collect::<Vec<_>>().join(",")
 }
 
 pub fn run(tier: &str, seed: u64, out: &str) {
@@ -127,7 +139,7 @@ pub fn run(tier: &str, seed: u64, out: &str) {
     let counts: Vec<u64> = par_map(&units, |&(a, b)| {
         let mut n = 0u64;
         let mut seq = vec![ops[a], ops[b]];
-        fn rec(seq: &mut Vec<Op>, ops: &[Op], max_len: usize, ks: &[u64; 4], pl: &[Payload; N_PAYLOADS], rep: &Report, n: &mut u64) {
+        fn rec(seq: &mut Vec<Op>, ops: &[Op], max_len: usize, ks: &[u64; N_KEYS + 1], pl: &[Payload; N_PAYLOADS], rep: &Report, n: &mut u64) {
             // each complete sequence is run on its own fresh table (prefixes are checked as
             // part of the longer runs, since every step is compared)
             if seq.len() == max_len {
@@ -159,11 +171,48 @@ pub fn run(tier: &str, seed: u64, out: &str) {
         }
     }
 
+    // ---- wide alphabet, short sequences: all five keys (the ends of the key range included),
+    // depths up to 255, payloads with scores at and beyond the search window and the i32 range
+    let wide_len = if tier == "thorough" { 3 } else { 2 };
+    let mut wide_ops = Vec::new();
+    for key in 0..N_KEYS {
+        for depth in [0u8, 1, 2, 3, 64, 255] {
+            for payload in 0..N_PAYLOADS {
+                wide_ops.push(Op { key, depth, payload });
+            }
+        }
+    }
+    let wide_units: Vec<usize> = (0..wide_ops.len()).collect();
+    let wide_counts: Vec<u64> = par_map(&wide_units, |&a| {
+        let mut n = 0u64;
+        let mut seq = vec![wide_ops[a]];
+        fn rec(seq: &mut Vec<Op>, ops: &[Op], max_len: usize, ks: &[u64; N_KEYS + 1], pl: &[Payload; N_PAYLOADS], rep: &Report, n: &mut u64) {
+            if seq.len() == max_len {
+                *n += 1;
+                if let Err(e) = run_sequence(seq, ks, pl) {
+                    rep.violation(format!("C15 seq={}", seq_arg(seq)), e, vec!["c15-one".into(), "--seq".into(), seq_arg(seq), "--seed".into(), rep.seed.to_string()], J::Null);
+                }
+                return;
+            }
+            for op in ops {
+                if rep.saturated() {
+                    return;
+                }
+                seq.push(*op);
+                rec(seq, ops, max_len, ks, pl, rep, n);
+                seq.pop();
+            }
+        }
+        rec(&mut seq, &wide_ops, wide_len, &ks, &pl, &rep, &mut n);
+        n
+    });
+    let wide_sequences: u64 = wide_counts.iter().sum();
+
     // model state graph to fixpoint; every state rebuilt on the real table by its shortest path
     let mut seen: HashMap<Model, Vec<Op>> = HashMap::new();
     let mut queue: VecDeque<Model> = VecDeque::new();
-    seen.insert([None; 3], vec![]);
-    queue.push_back([None; 3]);
+    seen.insert([None; N_KEYS], vec![]);
+    queue.push_back([None; N_KEYS]);
     let mut transitions = 0u64;
     let mut validated = 0u64;
     while let Some(state) = queue.pop_front() {
@@ -187,10 +236,11 @@ pub fn run(tier: &str, seed: u64, out: &str) {
     let cov = J::obj()
         .set("states", seen.len())
         .set("transitions", transitions)
-        .set("traces_validated_against_impl", validated + sequences)
-        .set("evaluations", sequences + ops.len() as u64)
+        .set("traces_validated_against_impl", validated + sequences + wide_sequences)
+        .set("evaluations", sequences + wide_sequences + ops.len() as u64)
         .set("distinct_nontrivial", sequences)
         .set("sequence_length", max_len)
+        .set("wide_alphabet", J::obj().set("operations", wide_ops.len()).set("sequence_length", wide_len).set("sequences", wide_sequences).set("alphabet", "store x {the 3 colliding keys, key 0, key 2^64-1} x {depth 0,1,2,3,64,255} x {10 payloads: the 3 above + mate scores +-(i32::MAX-1000), +32767, -32768, i32::MIN, i32::MAX, 0; all move types}"))
         .set("alphabet", "store x {3 keys equal in their low 40 / low 63 bits} x {depth 0,1,2} x {3 payloads: Exact with a move, Upper without, Lower with another move}; after every operation retrieve on the 3 keys and on a never-stored key")
         .set("rule", format!("every sequence of exactly {} stores ({}^{}), each on a fresh real table, every step compared with a map model (replace iff new depth >= stored depth); plus every transition of the {}-state model graph replayed on a fresh real table", max_len, ops.len(), max_len, seen.len()))
         .set("exhaustive", true)
@@ -207,8 +257,13 @@ pub fn replay(seq: &str, seed: u64) -> i32 {
     let ops: Vec<Op> = seq
         .split(',')
         .map(|t| {
-            let b = t.as_bytes();
-            Op { key: (b[0] - b'0') as usize, depth: b[1] - b'0', payload: (b[2] - b'0') as usize }
+            if t.contains('.') {
+                let f: Vec<&str> = t.split('.').collect();
+                Op { key: f[0].parse().unwrap(), depth: f[1].parse().unwrap(), payload: f[2].parse().unwrap() }
+            } else {
+                let b = t.as_bytes();
+                Op { key: (b[0] - b'0') as usize, depth: b[1] - b'0', payload: (b[2] - b'0') as usize }
+            }
         })
         .collect();
     match run_sequence(&ops, &ks, &pl) {
